@@ -327,6 +327,10 @@ def run(ctx):
             g.path.startswith("<minijinja::value::Value as core::cmp::") or "minijinja::value::Value as core::cmp::" in g.path)]
         ctx.floor("C07.V5 equality / ordering functions of Value" + tag, len(eqfns), 3)
         check_unknown_lengths(ctx, prog, eqfns, tag)
+        # ---- V8 (= C08.N8): the mixed float / integer orderings that `cmp` falls back to are exact at the saturation
+        # boundary, otherwise the order is not antisymmetric with == (2^127 vs i128::MAX)
+        from .c08 import check_mixed_orderings
+        check_mixed_orderings(ctx, prog, tag, rule="C07.V8.mixed-ordering-casts-the-float-only-below-saturation", floor_name="C07.V8")
         # ---- V7: membership agrees with equality.  `x in seq` is decided by the function the `In` instruction calls;
         # its searches over the members of a sequence / iterable (any / find / position / contains closures) must
         # return the result of `Value == Value` between the member and the needle - a specialised comparison
